@@ -515,7 +515,29 @@ func (w *world) settle() bool {
 		}
 		w.mu.Unlock()
 		if time.Now().After(deadline) {
-			w.inconcl = append(w.inconcl, "settle watchdog: goroutines did not reach a stable state")
+			var diag []string
+			w.mu.Lock()
+			for k := range gs {
+				g := &gs[k]
+				_, tracked := w.byGid[g.id]
+				if g.id == w.ctlGid || (!tracked && !g.td) {
+					continue
+				}
+				if !waitingStatus(g.status) || g.onHarnessLock() {
+					st := g.stack
+					if len(st) > 700 {
+						st = st[:700]
+					}
+					diag = append(diag, st)
+				}
+			}
+			for _, f := range w.conns {
+				if !f.runEntered {
+					diag = append(diag, fmt.Sprintf("K%d constructed but Run not entered", f.idx))
+				}
+			}
+			w.mu.Unlock()
+			w.inconcl = append(w.inconcl, "settle watchdog: goroutines did not reach a stable state: "+strings.Join(diag, " || "))
 			return false
 		}
 		if i > 50 {
